@@ -13,8 +13,8 @@ def harness(c, n, replay_ops=None, race_n=0):
 
 
 def run(c):
-    # T1: the step lists of Body / BodyNonAtomic, the merge chain of runAndMergeResults and the replay
-    # groups of checkStates, from the current tree
+    # T1: the step lists of Body / BodyNonAtomic, the merge chain of runAndMergeResults, the replay
+    # groups of checkStates and every write to MsgMetadata.Quarantine in the package, from the current tree
     c.extract("c06calls", "C06Calls.lean")
     c.lean("C06")
     if c.replay:
@@ -35,7 +35,13 @@ def run(c):
         "goroutine completion orders are permuted by seeded delays inside the scripted checks (not enumerated); the theorem "
         "covers every permutation, the differential runs check that the real outcome does not depend on the delays",
         "the iteration order of Go maps (destination blocks at the body stage, deliveries) is not controlled: what depends "
-        "on it (which destination-only checks saw the body before another one refused it) is not compared",
+        "on it (which destination-only checks saw the body before another one refused it; in a nest op the flag the outer "
+        "pipeline's own targets saw when the inner pipeline's checks quarantine) is not compared",
+        "nested pipelines (a MsgPipeline as the target of a destination block) are the same model run twice: the inner "
+        "pipeline is `run` on the recipients the outer one hands over with Cfg.q0 = the flag the outer one leaves "
+        "(composition in Driver/C06.lean `nest`, C06_quarantine_flag_monotone(_chain) for any depth); generated nest ops keep "
+        "the inner pipeline from refusing commands itself (no reject verdict, no DMARC reject) and the outer pipeline's own "
+        "targets from refusing, so that nothing feeds back from the inner to the outer transaction but the body result",
     ]
     return c.finish(
         rule="random pipelines: 1-4 scripted checks (thorough: up to 7) placed in 1-3 of global / source / 1-3 destination blocks "
@@ -44,7 +50,12 @@ def run(c):
         "densities 0-30%) produced by the real FailAction.Apply, DMARC off / none / quarantine / reject through the real "
         "verifier, 1-3 recording targets (atomic or per-recipient, 25% refusing quarantined messages like target.remote) "
         "shared between blocks, envelopes of 1-3 recipients (thorough: up to 6) routed to different blocks with repeated "
-        "recipients, seeded delays per check and stage; each case is run on the REAL MsgPipeline the way the SMTP endpoint "
+        "recipients, seeded delays per check and stage; 12% of the messages arrive already flagged (MsgMetadata.Quarantine "
+        "set before Start: the pipeline as the target of another one); 15% of the cases are two REAL pipelines, the second "
+        "one (own 1-4 scripted checks in its own global / source / destination blocks, own DMARC setting, own 1-3 recording "
+        "targets of which half refuse quarantined messages) used as a target of 1-3 destination blocks of the first, alone or "
+        "next to its own targets, with a quarantine by a check or the DMARC policy of the outer pipeline in every second of "
+        "them - the oracle demands the flag at every target behind the nested pipeline; each case is run on the REAL MsgPipeline the way the SMTP endpoint "
         "(Body) and the LMTP endpoint (BodyNonAtomic, then Commit) drive it, again with two other delay assignments, and "
         "with every ignore verdict removed; every run is compared with the Lean model (command replies, per-recipient "
         "results, quarantine flag, hand-overs seen by the targets, per-state call logs) and judged by the oracle written "
